@@ -18,7 +18,7 @@ use std::time::Duration;
 
 pub struct C13;
 
-pub const FILE_CLASSES: [&str; 15] = [
+pub const FILE_CLASSES: [&str; 17] = [
     "none",
     "missing",
     "directory",
@@ -34,6 +34,8 @@ pub const FILE_CLASSES: [&str; 15] = [
     "non_utf8_name",
     "bom_prefixed",
     "crlf_lines",
+    "utf16le",
+    "utf16be",
 ];
 pub const STDIN_CLASSES: [&str; 5] = ["flip", "cut", "insert_ff", "bytes", "empty"];
 
@@ -167,6 +169,21 @@ pub fn file_variant(sc: &Scenario, class: &str) -> FileVariant {
                 t.push_str("\r\n");
             }
             v.content = Some(t.into_bytes());
+        }
+        "utf16le" | "utf16be" => {
+            // the program saved as UTF-16 with its byte-order mark: a common kind of "not UTF-8"
+            let text = String::from_utf8_lossy(&src).into_owned();
+            let le = class == "utf16le";
+            let mut b: Vec<u8> = if le { vec![0xFF, 0xFE] } else { vec![0xFE, 0xFF] };
+            for u in text.encode_utf16() {
+                if le {
+                    b.extend_from_slice(&u.to_le_bytes());
+                } else {
+                    b.extend_from_slice(&u.to_be_bytes());
+                }
+            }
+            v.content = Some(b);
+            v.unreadable = true;
         }
         "non_utf8_name" => {
             v.name = "p\u{FFFD}.hyeong".into();
@@ -377,6 +394,7 @@ impl C13 {
             "noise_utf8" | "noise_bytes" => out.add("F7_file_noise", 1),
             "non_utf8_name" => out.add("F7_file_name_not_utf8", 1),
             "bom_prefixed" | "crlf_lines" => out.add("F7_file_bom_or_crlf", 1),
+            "utf16le" | "utf16be" => out.add("F7_file_utf16", 1),
             _ => out.add("F7_file_deep_area_chain", 1),
         }
         if sclass != "none" {
@@ -508,7 +526,13 @@ impl Property for C13 {
             let pos = rng.usize(0, sc.cmds.len());
             let (h, d) = gen::factor_pair(v);
             sc.cmds.insert(pos, Cmd::new(0, h, d, RArea::Nil));
-            sc.cmds.insert(pos + 1, Cmd::new(1, 1, rng.usize(1, 2), RArea::Nil));
+            if rng.chance(50) {
+                sc.cmds.insert(pos + 1, Cmd::new(1, 1, rng.usize(1, 2), RArea::Nil));
+            } else {
+                // written by duplication (흑 with an output stack as its target)
+                sc.cmds.insert(pos + 1, Cmd::new(5, rng.usize(1, 3), rng.usize(1, 2), RArea::Nil));
+                sc.cmds.insert(pos + 2, Cmd::new(5, 1, 3, RArea::Nil));
+            }
         }
         if rng.chance(40) {
             // make sure input is consumed somewhere
